@@ -1,8 +1,345 @@
-use serde_json::Value;
-use std::io::Write;
-pub fn cmd_map_replay(_workdir: &str, _out: &str) {
-    unimplemented!()
+//! Map layer: opens a generated map-shaped datafile with `map::Reader` and calls every accessor.
+//! Each call is projected to {f, a, out: ok|err|panic, idx: [{k, v}]} where `idx` lists every
+//! index the reader handed out (data / image / envelope / sound indices, layer ranges).  The
+//! events are judged by MapTrace.tla.
+use crate::{geti, write_layout};
+use libtw2_map::format;
+use libtw2_map::reader::{self, LayerTilemapType, LayerType};
+use serde_json::{json, Value};
+use std::collections::BTreeSet;
+use std::io::{BufRead, Write};
+use std::path::Path;
+use vh_common::{guarded, last_panic_location};
+
+struct Calls {
+    v: Vec<Value>,
+    panics: Vec<Value>,
 }
-pub fn replay_one(_workdir: &str, _case: &Value, _out: &mut dyn Write) {
-    unimplemented!()
+
+impl Calls {
+    /// Runs one accessor call under catch_unwind + watchdog; `f` returns Ok(indices) or Err(()).
+    fn call<F: FnOnce() -> Result<Vec<(&'static str, i64)>, String>>(&mut self, name: &str, arg: i64, f: F) -> bool {
+        match guarded(20_000, f) {
+            Ok(Ok(idx)) => {
+                self.v.push(json!({"f": name, "a": arg, "out": "ok",
+                    "idx": idx.iter().map(|(k, v)| json!({"k": k, "v": v})).collect::<Vec<_>>()}));
+                true
+            }
+            Ok(Err(_e)) => {
+                self.v.push(json!({"f": name, "a": arg, "out": "err", "idx": []}));
+                false
+            }
+            Err(msg) => {
+                let loc = crate::rel_loc(&last_panic_location());
+                self.v.push(json!({"f": name, "a": arg, "out": "panic", "idx": []}));
+                self.panics.push(json!({"f": name, "a": arg, "msg": msg, "loc": loc}));
+                false
+            }
+        }
+    }
+}
+
+fn e<T: std::fmt::Debug>(x: T) -> String {
+    format!("{:?}", x)
+}
+
+fn opt(k: &'static str, o: Option<usize>, out: &mut Vec<(&'static str, i64)>) {
+    if let Some(i) = o {
+        out.push((k, i as i64));
+    }
+}
+
+pub fn observe_map(path: &Path) -> Value {
+    let mut c = Calls { v: Vec::new(), panics: Vec::new() };
+    let opened = guarded(20_000, || reader::Reader::open(path));
+    let mut r = match opened {
+        Ok(Ok(r)) => r,
+        Ok(Err(_)) => return json!({"open": "err", "calls": [], "panics": [], "nd": 0, "rng": {}}),
+        Err(msg) => {
+            return json!({"open": "panic", "calls": [], "nd": 0, "rng": {},
+                          "panics": [{"f": "open", "a": 0, "msg": msg, "loc": crate::rel_loc(&last_panic_location())}]})
+        }
+    };
+    let nd = r.reader.num_data();
+    let rng_of = |t: u16| {
+        let x = r.reader.item_type_indices(t);
+        json!([x.start, x.end])
+    };
+    let rng = json!({
+        "image": rng_of(format::MAP_ITEMTYPE_IMAGE),
+        "envelope": rng_of(format::MAP_ITEMTYPE_ENVELOPE),
+        "group": rng_of(format::MAP_ITEMTYPE_GROUP),
+        "layer": rng_of(format::MAP_ITEMTYPE_LAYER),
+        "sound": rng_of(format::MAP_ITEMTYPE_DDRACE_SOUND),
+    });
+    let image_indices = r.reader.item_type_indices(format::MAP_ITEMTYPE_IMAGE);
+
+    c.call("check_version", 0, || r.check_version().map(|()| vec![]).map_err(e));
+    c.call("version", 0, || r.version().map(|_| vec![]).map_err(e));
+    let mut strings: BTreeSet<usize> = BTreeSet::new();
+    let mut settings: BTreeSet<usize> = BTreeSet::new();
+    let mut info = None;
+    c.call("info", 0, || {
+        let i = r.info().map_err(e)?;
+        let mut out = vec![];
+        opt("data", i.author, &mut out);
+        opt("data", i.version, &mut out);
+        opt("data", i.credits, &mut out);
+        opt("data", i.license, &mut out);
+        opt("data", i.settings, &mut out);
+        info = Some(i);
+        Ok(out)
+    });
+    if let Some(i) = info {
+        for x in [i.author, i.version, i.credits, i.license].iter().flatten() {
+            strings.insert(*x);
+        }
+        if let Some(s) = i.settings {
+            settings.insert(s);
+        }
+    }
+    // images
+    let mut image_data: BTreeSet<usize> = BTreeSet::new();
+    let mut image_names: BTreeSet<usize> = BTreeSet::new();
+    for i in image_indices {
+        let mut got = None;
+        c.call("image", i as i64, || {
+            let im = r.image(i).map_err(e)?;
+            let mut out = vec![("data", im.name as i64)];
+            opt("data", im.data, &mut out);
+            got = Some((im.name, im.data, im.width, im.height));
+            Ok(out)
+        });
+        if let Some((n, d, _, _)) = got {
+            image_names.insert(n);
+            if let Some(d) = d {
+                image_data.insert(d);
+            }
+        }
+    }
+    // groups and their layers
+    let mut tiles: Vec<(usize, reader::LayerTilemap, &'static str)> = Vec::new();
+    for gi in r.group_indices() {
+        let mut layers = 0..0;
+        c.call("group", gi as i64, || {
+            let g = r.group(gi).map_err(e)?;
+            layers = g.layer_indices.clone();
+            Ok(vec![("layer_lo", g.layer_indices.start as i64), ("layer_hi", g.layer_indices.end as i64)])
+        });
+        for li in layers {
+            let mut tm = None;
+            c.call("layer", li as i64, || {
+                let l = r.layer(li).map_err(e)?;
+                let mut out = vec![];
+                match l.t {
+                    LayerType::Quads(q) => {
+                        out.push(("data", q.data as i64));
+                        opt("image", q.image, &mut out);
+                    }
+                    LayerType::DdraceSounds(s) => {
+                        out.push(("data", s.data as i64));
+                        opt("sound", s.sound, &mut out);
+                    }
+                    LayerType::Tilemap(t) => {
+                        match t.type_ {
+                            LayerTilemapType::Normal(n) => {
+                                out.push(("data", n.data as i64));
+                                opt("image", n.image, &mut out);
+                                if let Some((env, _)) = n.color_env_and_offset {
+                                    out.push(("envelope", env as i64));
+                                }
+                                tm = Some((n.data, t, "tiles"));
+                            }
+                            LayerTilemapType::Game(d) => {
+                                out.push(("data", d as i64));
+                                tm = Some((d, t, "tiles"));
+                            }
+                            LayerTilemapType::RaceTeleport(d, z) => {
+                                out.push(("data", d as i64));
+                                out.push(("data", z as i64));
+                                tm = Some((d, t, "tele"));
+                            }
+                            LayerTilemapType::RaceSpeedup(d, z) => {
+                                out.push(("data", d as i64));
+                                out.push(("data", z as i64));
+                                tm = Some((d, t, "speedup"));
+                            }
+                            LayerTilemapType::DdraceFront(d, z) => {
+                                out.push(("data", d as i64));
+                                out.push(("data", z as i64));
+                                tm = Some((d, t, "tiles"));
+                            }
+                            LayerTilemapType::DdraceSwitch(d, z) => {
+                                out.push(("data", d as i64));
+                                out.push(("data", z as i64));
+                                tm = Some((d, t, "switch"));
+                            }
+                            LayerTilemapType::DdraceTune(d, z) => {
+                                out.push(("data", d as i64));
+                                out.push(("data", z as i64));
+                                tm = Some((d, t, "tune"));
+                            }
+                        }
+                        if let Some(d) = t.type_.tiles() {
+                            out.push(("data", d as i64));
+                        }
+                        let _ = t.type_.to_normal();
+                    }
+                }
+                Ok(out)
+            });
+            if let Some(x) = tm {
+                tiles.push(x);
+            }
+        }
+    }
+    // typed tile arrays of the layers found, through the layer's own LayerTilesIndex
+    for (d, t, kind) in tiles {
+        let a = d as i64;
+        match kind {
+            "tele" => {
+                c.call("tele_layer_tiles", a, || r.tele_layer_tiles(t.tiles(d)).map(|_| vec![]).map_err(e));
+            }
+            "speedup" => {
+                c.call("speedup_layer_tiles", a, || r.speedup_layer_tiles(t.tiles(d)).map(|_| vec![]).map_err(e));
+            }
+            "switch" => {
+                c.call("switch_layer_tiles", a, || r.switch_layer_tiles(t.tiles(d)).map(|_| vec![]).map_err(e));
+            }
+            "tune" => {
+                c.call("tune_layer_tiles", a, || r.tune_layer_tiles(t.tiles(d)).map(|_| vec![]).map_err(e));
+            }
+            _ => {
+                c.call("layer_tiles", a, || r.layer_tiles(t.tiles(d)).map(|_| vec![]).map_err(e));
+            }
+        }
+    }
+    // game layers
+    let mut gl = None;
+    c.call("game_layers", 0, || {
+        let g = r.game_layers().map_err(e)?;
+        let mut out = vec![("data", g.game_raw as i64)];
+        opt("data", g.teleport_raw, &mut out);
+        opt("data", g.speedup_raw, &mut out);
+        opt("data", g.front_raw, &mut out);
+        opt("data", g.switch_raw, &mut out);
+        opt("data", g.tune_raw, &mut out);
+        out.push(("layer_lo", g.group.layer_indices.start as i64));
+        out.push(("layer_hi", g.group.layer_indices.end as i64));
+        gl = Some(g);
+        Ok(out)
+    });
+    if let Some(g) = gl {
+        c.call("gl.game", 0, || r.layer_tiles(g.game()).map(|_| vec![]).map_err(e));
+        if let Some(i) = g.front() {
+            c.call("gl.front", 0, || r.layer_tiles(i).map(|_| vec![]).map_err(e));
+        }
+        if let Some(i) = g.teleport() {
+            c.call("gl.teleport", 0, || r.tele_layer_tiles(i).map(|_| vec![]).map_err(e));
+        }
+        if let Some(i) = g.speedup() {
+            c.call("gl.speedup", 0, || r.speedup_layer_tiles(i).map(|_| vec![]).map_err(e));
+        }
+        if let Some(i) = g.switch() {
+            c.call("gl.switch", 0, || r.switch_layer_tiles(i).map(|_| vec![]).map_err(e));
+        }
+        if let Some(i) = g.tune() {
+            c.call("gl.tune", 0, || r.tune_layer_tiles(i).map(|_| vec![]).map_err(e));
+        }
+    }
+    // every data block through every data-consuming accessor (indices below num_data)
+    for d in 0..nd {
+        let a = d as i64;
+        c.call("string", a, || r.string(d).map(|_| vec![]).map_err(e));
+        c.call("settings", a, || {
+            let s = r.settings(d).map_err(e)?;
+            let _n = s.iter().count();
+            Ok(vec![])
+        });
+        c.call("image_name", a, || r.image_name(d).map(|_| vec![]).map_err(e));
+        c.call("image_data", a, || r.image_data(d).map(|_| vec![]).map_err(e));
+        c.call("layer_tiles_raw", a, || r.layer_tiles_raw(d).map(|_| vec![]).map_err(e));
+        c.call("tele_layer_tiles_raw", a, || r.tele_layer_tiles_raw(d).map(|_| vec![]).map_err(e));
+        c.call("speedup_layer_tiles_raw", a, || r.speedup_layer_tiles_raw(d).map(|_| vec![]).map_err(e));
+        c.call("switch_layer_tiles_raw", a, || r.switch_layer_tiles_raw(d).map(|_| vec![]).map_err(e));
+        c.call("tune_layer_tiles_raw", a, || r.tune_layer_tiles_raw(d).map(|_| vec![]).map_err(e));
+    }
+    let _ = (strings, settings, image_data, image_names);
+    json!({"open": "ok", "nd": nd, "rng": rng, "calls": c.v, "panics": c.panics})
+}
+
+fn one_case(case: &Value, path: &Path) -> Value {
+    let bytes = write_layout(&case["L"]);
+    std::fs::write(path, &bytes).unwrap();
+    vh_common::set_case(&json!({"kind": "map", "sw": case["sw"], "v": case["v"]}).to_string());
+    let mut o = observe_map(path);
+    let m = o.as_object_mut().unwrap();
+    m.insert("sw".to_string(), case["sw"].clone());
+    m.insert("v".to_string(), case["v"].clone());
+    m.insert("file_len".to_string(), json!(bytes.len()));
+    o
+}
+
+pub fn cmd_map_replay(workdir: &str, out_path: &str) {
+    std::fs::create_dir_all(workdir).unwrap();
+    let path = Path::new(workdir).join(format!("map-{}.map", std::process::id()));
+    let mut out = std::io::BufWriter::new(std::fs::File::create(out_path).unwrap());
+    // side file with the generated cases (field values), line n = event n; not read by TLC
+    let mut cases_out = std::io::BufWriter::new(std::fs::File::create(format!("{}.cases", out_path)).unwrap());
+    let stdin = std::io::stdin();
+    let (mut n, mut panics, mut calls) = (0u64, 0u64, 0u64);
+    let mut tlc_tail: Vec<String> = Vec::new();
+    let mut shapes: BTreeSet<String> = BTreeSet::new();
+    let mut first_panics: Vec<Value> = Vec::new();
+    for line in stdin.lock().lines() {
+        let line = match line {
+            Ok(l) => l,
+            Err(_) => break,
+        };
+        if line.starts_with("<<\"M\"") {
+            let parts = vh_common::parse_tlc_tuple(&line).unwrap_or_default();
+            if parts.len() == 2 {
+                if let Ok(case) = serde_json::from_str::<Value>(&parts[1]) {
+                    let ev = one_case(&case, &path);
+                    n += 1;
+                    calls += ev["calls"].as_array().map(|a| a.len()).unwrap_or(0) as u64;
+                    // distinct outcome shapes: the sequence of (accessor, ok/err)
+                    let shape: String = ev["calls"]
+                        .as_array()
+                        .map(|a| a.iter().map(|c| format!("{}:{};", c["f"].as_str().unwrap_or(""), c["out"].as_str().unwrap_or(""))).collect())
+                        .unwrap_or_default();
+                    shapes.insert(shape);
+                    let np = ev["panics"].as_array().map(|a| a.len()).unwrap_or(0) as u64;
+                    if np > 0 && first_panics.len() < 50 {
+                        first_panics.push(json!({"case": case, "panics": ev["panics"]}));
+                    }
+                    panics += np;
+                    writeln!(out, "{}", ev).unwrap();
+                    writeln!(cases_out, "{}", case).unwrap();
+                    continue;
+                }
+            }
+            println!("{}", json!({"kind": "bad-line"}));
+        } else if !line.trim().is_empty() {
+            tlc_tail.push(line);
+            if tlc_tail.len() > 40 {
+                tlc_tail.remove(0);
+            }
+        }
+    }
+    out.flush().unwrap();
+    cases_out.flush().unwrap();
+    let _ = std::fs::remove_file(&path);
+    println!("{}", json!({"kind": "tlc", "tail": tlc_tail}));
+    println!("{}", json!({"kind": "summary", "cases": n, "calls": calls, "panics": panics,
+                          "distinct_outcome_shapes": shapes.len(), "first_panics": first_panics}));
+}
+
+pub fn replay_one(workdir: &str, case: &Value, out: &mut dyn Write) {
+    std::fs::create_dir_all(workdir).unwrap();
+    let path = Path::new(workdir).join(format!("map-{}.map", std::process::id()));
+    let ev = one_case(case, &path);
+    let _ = std::fs::remove_file(&path);
+    let _ = geti;
+    writeln!(out, "{}", json!({"kind": "map-observed", "event": ev})).unwrap();
 }
